@@ -11,6 +11,7 @@ SPEC = {
         "caller's argument, or the constants SIGTERM/SIGKILL for terminate/kill); finite-domain traversal of "
         "send_signal under child_state = Finished / Preparing showing that no call at all is reachable. "
         "Holds for every history because the rule quantifies over all paths of the code, not over runs."
+        " Thorough tier, windows: TerminateProcess only in os_terminate, under Running, on the stored handle; no call at all under Finished; the error is returned only if it is not ACCESS_DENIED or the process is STILL_ACTIVE, otherwise the exit is recorded."
     ),
     "not_decided": "pid reuse while the state is still Running because an external reaper has not been noticed "
                    "(excluded by the statement); kernel delivery semantics of kill(2).",
